@@ -1,8 +1,8 @@
 package main
 
 // single deviations of the registration ceremony (Appendix B, clauses R1–R13, P1–P2)
-var regDeviations = []string{"cd.type", "cd.challenge", "cd.origin", "cd.malformed", "ad.rpIdHash", "ad.noUP", "ad.noUV", "ad.noACD",
-	"key.unsupported", "key.noAlg", "key.okpOversize", "alg.notAllowed", "sig.otherKey", "sig.otherMessage", "sig.bitflip", "fmt.notAllowed", "type.notAllowed",
+var regDeviations = []string{"cd.type", "cd.challenge", "cd.origin", "cd.malformed", "cd.memberAbsent", "ad.rpIdHash", "ad.noUP", "ad.noUV", "ad.noACD",
+	"key.unsupported", "key.noAlg", "key.algOfOtherType", "key.okpOversize", "alg.notAllowed", "sig.otherKey", "sig.otherMessage", "sig.bitflip", "fmt.notAllowed", "type.notAllowed",
 	"rawId.other", "rawId.lengthVariant", "owner.other", "attObj.malformed"}
 
 func regWithDeviation(c *Ctx, stream, format string, credAlg, attAlg int, devs ...string) {
